@@ -75,11 +75,6 @@ def random_config(rng, allow_tblname_finding=False):
         spec = envs.shape_single(opts, plugins=plugins)
     else:
         spec = envs.shape_m2m(opts, plugins=plugins)
-    if shape in ('m2m', 'joined') and 'table_name' in opts and not allow_tblname_finding:
-        # open finding F-TBLNAME (utils.version_table hard-codes '_version'): kept out of the random
-        # stream, pinned in corpus/C12
-        del opts['table_name']
-        spec['options'] = opts
     # random column attributes on non-key columns
     for c in spec['classes']:
         for colspec in c['columns']:
